@@ -2,14 +2,13 @@
 (***************************************************************************)
 (* Trace validation for the tag-expression part of C19.  A trace carries    *)
 (* the tag sets every expression was evaluated on.  Events:                 *)
-(*   tag  : toks |-> the expression as tokens (the driver wrote them out as *)
-(*          text under the lexical contract of TagLang), ok |-> whether     *)
-(*          insights.core.taglang.parse accepted the text, vals |-> the     *)
+(*   tag  : chars |-> the text given to insights.core.taglang.parse, as     *)
+(*          characters, ok |-> whether it accepted the text, vals |-> the   *)
 (*          predicate's result on every tag set                             *)
 (*   retab: rows |-> <<[body, tag, m]>>: what re.search really says (R4)    *)
-(* A tag event is accepted iff the reference reader accepts the tokens, the *)
-(* real parser accepted the text and every result equals Eval of the read   *)
-(* expression.                                                              *)
+(* A tag event is accepted iff the real parser accepted the text exactly    *)
+(* when the reference reader of the text (ReadText) does, and then every    *)
+(* result equals Eval of the expression the reference read.                 *)
 (***************************************************************************)
 EXTENDS TagLang, TLC, Json, IOUtils, TLCExt
 
@@ -23,26 +22,33 @@ Ev   == T.events[l + 1]
 More == l < Len(T.events)
 Rng(s) == {s[i] : i \in DOMAIN s}
 
-Valid   == Ev.ev = "tag" /\ (\A i \in DOMAIN Ev.toks : TokOK(Ev.toks[i])) /\ Read(Ev.toks).ok
+(* the reference reads the TEXT that was given to the parser *)
+R == ReadText(Ev.chars)
+
+Valid   == Ev.ev = "tag" /\ (\A i \in DOMAIN Ev.chars : Len(Ev.chars[i]) = 1)
            /\ (Ev.ok => Len(Ev.vals) = Len(T.sets))
-TagOK   == Ev.ok /\ \A j \in DOMAIN T.sets : Ev.vals[j] = Eval(Read(Ev.toks).x, Rng(T.sets[j]))
+TruthOK == \A j \in DOMAIN T.sets : Ev.vals[j] = Eval(R.x, Rng(T.sets[j]))
+(* exactly the well-formed expressions are accepted, and they mean what the grammar says; nothing is   *)
+(* demanded where the reading leaves the text open or a regex is used whose matches the model does not *)
+(* know                                                                                                *)
+TagOK   == IF R.ok THEN (KnownRegexes(R.x) => Ev.ok /\ TruthOK)
+           ELSE R.why = "unspecified" \/ ~Ev.ok
 RetabOK == \A i \in DOMAIN Ev.rows : Ev.rows[i].body \in Bodies /\ Ev.rows[i].tag \in Universe
                                      /\ Matches(Ev.rows[i].body, Ev.rows[i].tag) = Ev.rows[i].m
 
 Accepts == IF Ev.ev = "retab" THEN RetabOK ELSE Valid /\ TagOK
 
-Has(t) == \E i \in DOMAIN Ev.toks : Ev.toks[i].t = t
-Features == (IF Has("!") THEN "not+" ELSE "") \o (IF Has("&") THEN "and+" ELSE "")
-            \o (IF Has("|") THEN "or+" ELSE "") \o (IF Has(",") THEN "comma+" ELSE "")
-            \o (IF Has("(") THEN "paren+" ELSE "") \o (IF Has("re") THEN "regex+" ELSE "")
-            \o (IF \E i \in DOMAIN Ev.toks : Ev.toks[i].t \in {"tag", "re"} /\ Ev.toks[i].q > 0 THEN "quoted+" ELSE "")
-            \o "tag"
+Features == (IF UsesKind(R.x, "not") THEN "not+" ELSE "") \o (IF UsesKind(R.x, "and") THEN "and+" ELSE "")
+            \o (IF UsesKind(R.x, "or") THEN "or+" ELSE "")
+            \o (IF UsesOpRegex(R.x) THEN "regex-with-operator-characters+" ELSE IF UsesKind(R.x, "re") THEN "regex+" ELSE "")
+            \o (IF UsesQuote(R.x) THEN "quoted+" ELSE "") \o "tag"
 
 Diagnose ==
     IF Ev.ev = "retab" THEN [clause |-> "malformed:regex-table", size |-> 0]
     ELSE IF ~Valid THEN [clause |-> "malformed-event", size |-> 0]
-    ELSE IF ~Ev.ok THEN [clause |-> "TagEval:rejects-valid-expression:" \o Features, size |-> Len(Ev.toks)]
-    ELSE [clause |-> "TagEval:wrong-truth-value:" \o Features, size |-> Len(Ev.toks)]
+    ELSE IF ~R.ok THEN [clause |-> "TagEval:accepts-ill-formed-expression:" \o R.why, size |-> Len(Ev.chars)]
+    ELSE IF ~Ev.ok THEN [clause |-> "TagEval:rejects-valid-expression:" \o Features, size |-> Len(Ev.chars)]
+    ELSE [clause |-> "TagEval:wrong-truth-value:" \o Features, size |-> Len(Ev.chars)]
 
 Advance == IF tid < Len(Batch) THEN tid' = tid + 1 /\ l' = 0 ELSE tid' = Len(Batch) + 1 /\ l' = 0
 TraceInit == tid = 1 /\ l = 0
